@@ -33,14 +33,14 @@ type c08Attempt struct {
 }
 
 type c08Case struct {
-	ID      string   `json:"id"`
-	Cluster string   `json:"cluster"`
-	Level   int      `json:"retry_level"`
-	Max     int      `json:"retry_max"`
-	Cross   int      `json:"cross_retry"`
-	Frontend string  `json:"frontend"` // h1 | h2 | spdy
-	Shape   string   `json:"shape"`  // request shape
-	Faults  []string `json:"faults"` // fault for the k-th arrival at a live backend
+	ID       string   `json:"id"`
+	Cluster  string   `json:"cluster"`
+	Level    int      `json:"retry_level"`
+	Max      int      `json:"retry_max"`
+	Cross    int      `json:"cross_retry"`
+	Frontend string   `json:"frontend"` // h1 | h2 | spdy
+	Shape    string   `json:"shape"`    // request shape
+	Faults   []string `json:"faults"`   // fault for the k-th arrival at a live backend
 }
 
 var c08Shapes = []string{"GET", "GET-cl0", "HEAD", "POST-fixed", "POST-chunked", "PUT-fixed", "POST-expect", "GET-body"}
@@ -79,7 +79,7 @@ func c08(r *vkit.Run) {
 	bs := e2e.NewBackendSet()
 	defer bs.Close()
 	var mu sync.Mutex
-	arrivals := map[string]int{}       // id -> arrivals at live backends
+	arrivals := map[string]int{}          // id -> arrivals at live backends
 	attempts := map[string][]c08Attempt{} // id -> attempts (forward callback)
 	on := func(x *e2e.Exchange) e2e.Action {
 		id := x.Req.Header.Get("X-Id")
